@@ -22,12 +22,12 @@ def NumOk (tok : α → String) (numOf : String → α) (v : α) : Prop :=
   ∨ (FloatParts (tok v) ∧ numOf (tok v) = v)
 
 /-- The fragment of compiled expressions the theorem `parse_display_exp` covers: numbers under `NumOk`,
-plain identifiers that are not keywords, `+ - * /` whose operands are not bare logic nodes, unary minus,
+plain identifiers that are not keywords, `+ - * /`, unary minus,
 `not`, and the two-operand logic nodes `into_exp` builds (`and`, `or`, `xor`, `implies`, `iff`). -/
 def Frag (tok : α → String) (numOf : String → α) : Exp α → Prop
   | .num v => NumOk tok numOf v
   | .var n => plainWord n.toList = true ∧ isKeyword n = false
-  | .bin o l r => isArith o = true ∧ isLogicNode l = false ∧ isLogicNode r = false ∧ Frag tok numOf l ∧ Frag tok numOf r
+  | .bin o l r => isArith o = true ∧ Frag tok numOf l ∧ Frag tok numOf r
   | .un .neg e => Frag tok numOf e
   | .not e => Frag tok numOf e
   | .and [a, b] => Frag tok numOf a ∧ Frag tok numOf b
@@ -184,8 +184,8 @@ theorem lexShow : (e : Exp α) → Frag tok numOf e → ∀ ctx, Lexes (showE to
     intro rest pw acc hd
     simpa [showE, dToks] using lexTo_word n.toList rest pw acc h.1 hd
   | .bin op l r, h, ctx => by
-    have ihl := lexShow l h.2.2.2.1 (some (op, false))
-    have ihr := lexShow r h.2.2.2.2 (some (op, true))
+    have ihl := lexShow l h.2.1 (some (op, false))
+    have ihr := lexShow r h.2.2 (some (op, true))
     have body := Lexes.binop op ihl ihr
     cases ctx with
     | none => simpa [showE, dToks, String.toList_append] using body
@@ -211,19 +211,29 @@ theorem lexShow : (e : Exp α) → Frag tok numOf e → ∀ ctx, Lexes (showE to
     by_cases hl : isLeaf e = true <;> simpa [showE, dToks, hl, String.toList_append] using this
   | .and [a, b], h, ctx => by
     have := lexes_logic2 tok .and a b (lexShow a h.1 none) (lexShow b h.2 none)
-    simpa [showE, dToks, joinWith, binOpStr, binKwTok, String.toList_append] using this
+    cases ctx with
+    | none => simpa [showE, dToks, logicWrap, logicWrapToks, joinWith, binOpStr, binKwTok, String.toList_append] using this
+    | some p => simpa [showE, dToks, logicWrap, logicWrapToks, joinWith, binOpStr, binKwTok, String.toList_append, parenToks] using this.paren
   | .or [a, b], h, ctx => by
     have := lexes_logic2 tok .or a b (lexShow a h.1 none) (lexShow b h.2 none)
-    simpa [showE, dToks, joinWith, binOpStr, binKwTok, String.toList_append] using this
+    cases ctx with
+    | none => simpa [showE, dToks, logicWrap, logicWrapToks, joinWith, binOpStr, binKwTok, String.toList_append] using this
+    | some p => simpa [showE, dToks, logicWrap, logicWrapToks, joinWith, binOpStr, binKwTok, String.toList_append, parenToks] using this.paren
   | .xor a b, h, ctx => by
     have := lexes_logic2 tok .xor a b (lexShow a h.1 none) (lexShow b h.2 none)
-    simpa [showE, dToks, binOpStr, binKwTok, String.toList_append] using this
+    cases ctx with
+    | none => simpa [showE, dToks, logicWrap, logicWrapToks, joinWith, binOpStr, binKwTok, String.toList_append] using this
+    | some p => simpa [showE, dToks, logicWrap, logicWrapToks, joinWith, binOpStr, binKwTok, String.toList_append, parenToks] using this.paren
   | .implies a b, h, ctx => by
     have := lexes_logic2 tok .implies a b (lexShow a h.1 none) (lexShow b h.2 none)
-    simpa [showE, dToks, binOpStr, binKwTok, String.toList_append] using this
+    cases ctx with
+    | none => simpa [showE, dToks, logicWrap, logicWrapToks, joinWith, binOpStr, binKwTok, String.toList_append] using this
+    | some p => simpa [showE, dToks, logicWrap, logicWrapToks, joinWith, binOpStr, binKwTok, String.toList_append, parenToks] using this.paren
   | .iff a b, h, ctx => by
     have := lexes_logic2 tok .iff a b (lexShow a h.1 none) (lexShow b h.2 none)
-    simpa [showE, dToks, binOpStr, binKwTok, String.toList_append] using this
+    cases ctx with
+    | none => simpa [showE, dToks, logicWrap, logicWrapToks, joinWith, binOpStr, binKwTok, String.toList_append] using this
+    | some p => simpa [showE, dToks, logicWrap, logicWrapToks, joinWith, binOpStr, binKwTok, String.toList_append, parenToks] using this.paren
   | .un .not e, h, _ => by simp [Frag] at h
   | .abs _, h, _ => by simp [Frag] at h
   | .min _, h, _ => by simp [Frag] at h
@@ -300,24 +310,23 @@ theorem tk_logic2 (o : BinOp) {a b : Exp α} {ia ib : List Item}
 operand that is not a bare logic node carries the parentheses the grouping rules need. -/
 theorem tkShow : (e : Exp α) → Frag tok numOf e → ∀ ctx, ∃ items, Tk (toP tok e) (dToks tok ctx e) items ∧
     (isLeaf e = true → items = [.leaf (toP tok e)]) ∧
-    (isLogicNode e = false → ∀ p s, ctx = some (p, s) →
-      items = [.leaf (toP tok e)] ∨ needParenSide p s (toP tok e) = false)
-  | .num v, h, ctx => ⟨_, by simpa [toP, dToks] using tk_num tok numOf h, fun _ => rfl, fun _ _ _ _ => Or.inl rfl⟩
-  | .var n, h, ctx => ⟨_, by simpa [toP, dToks] using Tk.atom (Atom.var n h.2), fun _ => rfl, fun _ _ _ _ => Or.inl rfl⟩
+    (∀ p s, ctx = some (p, s) → items = [.leaf (toP tok e)] ∨ needParenSide p s (toP tok e) = false)
+  | .num v, h, ctx => ⟨_, by simpa [toP, dToks] using tk_num tok numOf h, fun _ => rfl, fun _ _ _ => Or.inl rfl⟩
+  | .var n, h, ctx => ⟨_, by simpa [toP, dToks] using Tk.atom (Atom.var n h.2), fun _ => rfl, fun _ _ _ => Or.inl rfl⟩
   | .bin op l r, h, ctx => by
-    obtain ⟨il, hkl, _, hpl⟩ := tkShow l h.2.2.2.1 (some (op, false))
-    obtain ⟨ir, hkr, _, hpr⟩ := tkShow r h.2.2.2.2 (some (op, true))
-    have body := Tk.bin hkl hkr (by simpa [needParenSide] using hpl h.2.1 op false rfl)
-      (by simpa [needParenSide] using hpr h.2.2.1 op true rfl) (binKwTok_mem op)
+    obtain ⟨il, hkl, _, hpl⟩ := tkShow l h.2.1 (some (op, false))
+    obtain ⟨ir, hkr, _, hpr⟩ := tkShow r h.2.2 (some (op, true))
+    have body := Tk.bin hkl hkr (by simpa [needParenSide] using hpl op false rfl)
+      (by simpa [needParenSide] using hpr op true rfl) (binKwTok_mem op)
     cases ctx with
-    | none => exact ⟨_, by simpa [toP, dToks] using body, by simp [isLeaf], by intro _ p s e; cases e⟩
+    | none => exact ⟨_, by simpa [toP, dToks] using body, by simp [isLeaf], by intro p s e; cases e⟩
     | some ps =>
       obtain ⟨parent, isRhs⟩ := ps
       by_cases hp : parensRule parent isRhs op = true
       · exact ⟨_, by simpa [toP, dToks, hp, parenToks] using Tk.paren body, by simp [isLeaf],
-          fun _ _ _ _ => Or.inl (by simp [toP])⟩
+          fun _ _ _ => Or.inl (by simp [toP])⟩
       · refine ⟨_, by simpa [toP, dToks, hp] using body, by simp [isLeaf], ?_⟩
-        intro _ p s e
+        intro p s e
         cases e
         right
         have hp' : parensRule parent isRhs op = false := by simpa using hp
@@ -327,40 +336,60 @@ theorem tkShow : (e : Exp α) → Frag tok numOf e → ∀ ctx, ∃ items, Tk (t
     obtain ⟨ie, hke, hle, _⟩ := tkShow e h' none
     have := Tk.un (tk_unOperand tok hke hle) (unKwTok_mem .neg)
     refine ⟨_, by simpa [toP, dToks] using this, by simp [isLeaf], ?_⟩
-    intro _ p s _
+    intro p s _
     right; cases s <;> simp [needParenSide, toP, needParenLeft, needParenRight]
   | .not e, h, ctx => by
     have h' : Frag tok numOf e := h
     obtain ⟨ie, hke, hle, _⟩ := tkShow e h' none
     have := Tk.un (tk_unOperand tok hke hle) (unKwTok_mem .not)
     refine ⟨_, by simpa [toP, dToks, unKwTok] using this, by simp [isLeaf], ?_⟩
-    intro _ p s _
+    intro p s _
     right; cases s <;> simp [needParenSide, toP, needParenLeft, needParenRight]
   | .and [a, b], h, ctx => by
     obtain ⟨ia, hka, hla, _⟩ := tkShow a h.1 none
     obtain ⟨ib, hkb, hlb, _⟩ := tkShow b h.2 none
     obtain ⟨items, hk⟩ := tk_logic2 tok .and hka hla hkb hlb
-    exact ⟨items, by simpa [toP, dToks, binKwTok] using hk, by simp [isLeaf], by simp [isLogicNode]⟩
+    cases ctx with
+    | none => exact ⟨items, by simpa [toP, dToks, binKwTok, logicWrapToks] using hk, by simp [isLeaf], by intro p s e; cases e⟩
+    | some ps =>
+      exact ⟨_, by simpa [toP, dToks, binKwTok, logicWrapToks, parenToks] using Tk.paren hk, by simp [isLeaf],
+        fun _ _ _ => Or.inl (by simp [toP])⟩
   | .or [a, b], h, ctx => by
     obtain ⟨ia, hka, hla, _⟩ := tkShow a h.1 none
     obtain ⟨ib, hkb, hlb, _⟩ := tkShow b h.2 none
     obtain ⟨items, hk⟩ := tk_logic2 tok .or hka hla hkb hlb
-    exact ⟨items, by simpa [toP, dToks, binKwTok] using hk, by simp [isLeaf], by simp [isLogicNode]⟩
+    cases ctx with
+    | none => exact ⟨items, by simpa [toP, dToks, binKwTok, logicWrapToks] using hk, by simp [isLeaf], by intro p s e; cases e⟩
+    | some ps =>
+      exact ⟨_, by simpa [toP, dToks, binKwTok, logicWrapToks, parenToks] using Tk.paren hk, by simp [isLeaf],
+        fun _ _ _ => Or.inl (by simp [toP])⟩
   | .xor a b, h, ctx => by
     obtain ⟨ia, hka, hla, _⟩ := tkShow a h.1 none
     obtain ⟨ib, hkb, hlb, _⟩ := tkShow b h.2 none
     obtain ⟨items, hk⟩ := tk_logic2 tok .xor hka hla hkb hlb
-    exact ⟨items, by simpa [toP, dToks, binKwTok] using hk, by simp [isLeaf], by simp [isLogicNode]⟩
+    cases ctx with
+    | none => exact ⟨items, by simpa [toP, dToks, binKwTok, logicWrapToks] using hk, by simp [isLeaf], by intro p s e; cases e⟩
+    | some ps =>
+      exact ⟨_, by simpa [toP, dToks, binKwTok, logicWrapToks, parenToks] using Tk.paren hk, by simp [isLeaf],
+        fun _ _ _ => Or.inl (by simp [toP])⟩
   | .implies a b, h, ctx => by
     obtain ⟨ia, hka, hla, _⟩ := tkShow a h.1 none
     obtain ⟨ib, hkb, hlb, _⟩ := tkShow b h.2 none
     obtain ⟨items, hk⟩ := tk_logic2 tok .implies hka hla hkb hlb
-    exact ⟨items, by simpa [toP, dToks, binKwTok] using hk, by simp [isLeaf], by simp [isLogicNode]⟩
+    cases ctx with
+    | none => exact ⟨items, by simpa [toP, dToks, binKwTok, logicWrapToks] using hk, by simp [isLeaf], by intro p s e; cases e⟩
+    | some ps =>
+      exact ⟨_, by simpa [toP, dToks, binKwTok, logicWrapToks, parenToks] using Tk.paren hk, by simp [isLeaf],
+        fun _ _ _ => Or.inl (by simp [toP])⟩
   | .iff a b, h, ctx => by
     obtain ⟨ia, hka, hla, _⟩ := tkShow a h.1 none
     obtain ⟨ib, hkb, hlb, _⟩ := tkShow b h.2 none
     obtain ⟨items, hk⟩ := tk_logic2 tok .iff hka hla hkb hlb
-    exact ⟨items, by simpa [toP, dToks, binKwTok] using hk, by simp [isLeaf], by simp [isLogicNode]⟩
+    cases ctx with
+    | none => exact ⟨items, by simpa [toP, dToks, binKwTok, logicWrapToks] using hk, by simp [isLeaf], by intro p s e; cases e⟩
+    | some ps =>
+      exact ⟨_, by simpa [toP, dToks, binKwTok, logicWrapToks, parenToks] using Tk.paren hk, by simp [isLeaf],
+        fun _ _ _ => Or.inl (by simp [toP])⟩
   | .un .not e, h, _ => by simp [Frag] at h
   | .abs _, h, _ => by simp [Frag] at h
   | .min _, h, _ => by simp [Frag] at h
@@ -380,8 +409,8 @@ theorem intoExp_toP : (e : Exp α) → Frag tok numOf e → intoExp numOf (toP t
     · simp [toP, numP, floatParts_not_int hf, intoExp, hv]
   | .var n, _ => by simp [toP, intoExp]
   | .bin op l r, h => by
-    have hl := intoExp_toP l h.2.2.2.1
-    have hr := intoExp_toP r h.2.2.2.2
+    have hl := intoExp_toP l h.2.1
+    have hr := intoExp_toP r h.2.2
     have ha := h.1
     cases op <;> simp [isArith] at ha <;> simp [toP, intoExp, hl, hr, mkBinExp]
   | .un .neg e, h => by
@@ -431,8 +460,8 @@ theorem dToks_expr : (e : Exp α) → Frag tok numOf e → ∀ ctx, ∀ tk ∈ d
   | .num v, _, ctx => by intro tk h; simp [dToks] at h; subst h; exact numTok_expr _
   | .var n, _, ctx => by intro tk h; simp [dToks] at h; subst h; rfl
   | .bin op l r, h, ctx => by
-    have ihl := dToks_expr l h.2.2.2.1 (some (op, false))
-    have ihr := dToks_expr r h.2.2.2.2 (some (op, true))
+    have ihl := dToks_expr l h.2.1 (some (op, false))
+    have ihr := dToks_expr r h.2.2 (some (op, true))
     have body : ∀ tk ∈ dToks tok (some (op, false)) l ++ binKwTok op :: dToks tok (some (op, true)) r, isExprTok tk = true := by
       intro tk htk
       rcases List.mem_append.mp htk with h1 | h1
@@ -468,45 +497,60 @@ theorem dToks_expr : (e : Exp α) → Frag tok numOf e → ∀ ctx, ∀ tk ∈ d
       · exact ih tk htk
       · exact mem_paren_expr ih tk htk
   | .and [a, b], h, ctx => by
-    intro tk htk
-    simp only [dToks] at htk
-    rcases List.mem_append.mp htk with h1 | h1
-    · exact logicToks_expr a (dToks_expr a h.1 none) tk h1
-    · rcases List.mem_cons.mp h1 with rfl | h1
-      · rfl
-      · exact logicToks_expr b (dToks_expr b h.2 none) tk h1
+    have body : ∀ tk ∈ logicToks a (dToks tok none a) ++ .word "and" :: logicToks b (dToks tok none b), isExprTok tk = true := by
+      intro tk htk
+      rcases List.mem_append.mp htk with h1 | h1
+      · exact logicToks_expr a (dToks_expr a h.1 none) tk h1
+      · rcases List.mem_cons.mp h1 with rfl | h1
+        · rfl
+        · exact logicToks_expr b (dToks_expr b h.2 none) tk h1
+    cases ctx with
+    | none => simpa [dToks, logicWrapToks] using body
+    | some p => simpa [dToks, logicWrapToks] using mem_paren_expr body
   | .or [a, b], h, ctx => by
-    intro tk htk
-    simp only [dToks] at htk
-    rcases List.mem_append.mp htk with h1 | h1
-    · exact logicToks_expr a (dToks_expr a h.1 none) tk h1
-    · rcases List.mem_cons.mp h1 with rfl | h1
-      · rfl
-      · exact logicToks_expr b (dToks_expr b h.2 none) tk h1
+    have body : ∀ tk ∈ logicToks a (dToks tok none a) ++ .word "or" :: logicToks b (dToks tok none b), isExprTok tk = true := by
+      intro tk htk
+      rcases List.mem_append.mp htk with h1 | h1
+      · exact logicToks_expr a (dToks_expr a h.1 none) tk h1
+      · rcases List.mem_cons.mp h1 with rfl | h1
+        · rfl
+        · exact logicToks_expr b (dToks_expr b h.2 none) tk h1
+    cases ctx with
+    | none => simpa [dToks, logicWrapToks] using body
+    | some p => simpa [dToks, logicWrapToks] using mem_paren_expr body
   | .xor a b, h, ctx => by
-    intro tk htk
-    simp only [dToks] at htk
-    rcases List.mem_append.mp htk with h1 | h1
-    · exact logicToks_expr a (dToks_expr a h.1 none) tk h1
-    · rcases List.mem_cons.mp h1 with rfl | h1
-      · rfl
-      · exact logicToks_expr b (dToks_expr b h.2 none) tk h1
+    have body : ∀ tk ∈ logicToks a (dToks tok none a) ++ .word "xor" :: logicToks b (dToks tok none b), isExprTok tk = true := by
+      intro tk htk
+      rcases List.mem_append.mp htk with h1 | h1
+      · exact logicToks_expr a (dToks_expr a h.1 none) tk h1
+      · rcases List.mem_cons.mp h1 with rfl | h1
+        · rfl
+        · exact logicToks_expr b (dToks_expr b h.2 none) tk h1
+    cases ctx with
+    | none => simpa [dToks, logicWrapToks] using body
+    | some p => simpa [dToks, logicWrapToks] using mem_paren_expr body
   | .implies a b, h, ctx => by
-    intro tk htk
-    simp only [dToks] at htk
-    rcases List.mem_append.mp htk with h1 | h1
-    · exact logicToks_expr a (dToks_expr a h.1 none) tk h1
-    · rcases List.mem_cons.mp h1 with rfl | h1
-      · rfl
-      · exact logicToks_expr b (dToks_expr b h.2 none) tk h1
+    have body : ∀ tk ∈ logicToks a (dToks tok none a) ++ .word "implies" :: logicToks b (dToks tok none b), isExprTok tk = true := by
+      intro tk htk
+      rcases List.mem_append.mp htk with h1 | h1
+      · exact logicToks_expr a (dToks_expr a h.1 none) tk h1
+      · rcases List.mem_cons.mp h1 with rfl | h1
+        · rfl
+        · exact logicToks_expr b (dToks_expr b h.2 none) tk h1
+    cases ctx with
+    | none => simpa [dToks, logicWrapToks] using body
+    | some p => simpa [dToks, logicWrapToks] using mem_paren_expr body
   | .iff a b, h, ctx => by
-    intro tk htk
-    simp only [dToks] at htk
-    rcases List.mem_append.mp htk with h1 | h1
-    · exact logicToks_expr a (dToks_expr a h.1 none) tk h1
-    · rcases List.mem_cons.mp h1 with rfl | h1
-      · rfl
-      · exact logicToks_expr b (dToks_expr b h.2 none) tk h1
+    have body : ∀ tk ∈ logicToks a (dToks tok none a) ++ .word "iff" :: logicToks b (dToks tok none b), isExprTok tk = true := by
+      intro tk htk
+      rcases List.mem_append.mp htk with h1 | h1
+      · exact logicToks_expr a (dToks_expr a h.1 none) tk h1
+      · rcases List.mem_cons.mp h1 with rfl | h1
+        · rfl
+        · exact logicToks_expr b (dToks_expr b h.2 none) tk h1
+    cases ctx with
+    | none => simpa [dToks, logicWrapToks] using body
+    | some p => simpa [dToks, logicWrapToks] using mem_paren_expr body
   | .un .not e, h, _ => by simp [Frag] at h
   | .abs _, h, _ => by simp [Frag] at h
   | .min _, h, _ => by simp [Frag] at h
